@@ -107,7 +107,15 @@ def gen_int_unit(rng):
     return {"kind": "int", "xs": xs, "template": t, "style": rng.randrange(len(STYLES)), "seed": rng.getrandbits(16)}
 
 
+INT_EDGES = [2 ** 63, 2 ** 63 - 1, -(2 ** 63), -(2 ** 63) - 1, 2 ** 64, 2 ** 64 - 1, 2 ** 31, -(2 ** 31), 2 ** 53, 2 ** 53 + 1, -(2 ** 53) - 1,
+             2 ** 32, 10 ** 19, -(10 ** 19), 2 ** 127, -(2 ** 127), 0]
+
+
 def dec_string(rng):
+    if rng.random() < 0.12:
+        # plain integers at the edges of the machine integer types (a fast path through i64/u64/f64 would show here)
+        s = str(rng.choice(INT_EDGES))
+        return s + rng.choice(("", "", ".0", "e0", ".000"))
     digits = rng.choice((1, 2, 5, 17, 20, 40, 60))
     ip = "".join(rng.choice("0123456789") for _ in range(rng.randint(1, digits)))
     s = ip
@@ -168,7 +176,8 @@ def gen_nas_unit(rng):
     a, b, c = dec_string(rng), dec_string(rng), dec_string(rng)
     if rng.random() < 0.3:
         b = respell(rng, a)
-    return {"kind": "nas", "op": op, "a": a, "b": b, "c": c, "nargs": rng.choice((2, 3)), "seed": rng.getrandbits(16)}
+    return {"kind": "nas", "op": op, "a": a, "b": b, "c": c, "nargs": rng.choice((2, 3)), "seed": rng.getrandbits(16),
+            "wrap": rng.choice((0, 0, 1, 2, 3, 4))}
 
 
 def run_unit(ctx, unit):
@@ -254,6 +263,12 @@ def run_unit(ctx, unit):
     a, b, c = unit["a"], unit["b"], unit["c"]
     fa, fb, fc = Fraction(a), Fraction(b), Fraction(c)
     qa, qb, qc = jm.dumps(a), jm.dumps(b), jm.dumps(c)
+    # operands are literals, fields of the record, or computed from fields (default / ? / pipe): the same decimal strings either way
+    wrap = unit.get("wrap", 0)
+    if wrap:
+        forms = {1: (".a", ".b", ".c"), 2: ('(default .a "0")', '(default .nothing .b)', '(? (string? .c) .c "0")'),
+                 3: ("(| .a .)", '(concat .b "")', "(get .l 0)"), 4: ('(default .a "0")', ".b", '(default .c "1")')}[wrap]
+        qa, qb, qc = forms
     if op in ('"+"', '"*"'):
         ops = [qa, qb] + ([qc] if unit["nargs"] == 3 else [])
         vals = [fa, fb] + ([fc] if unit["nargs"] == 3 else [])
@@ -273,7 +288,7 @@ def run_unit(ctx, unit):
     sel = ["--select=%s=v" % expr]
     if op == '"||"':
         sel.append('--select=("||" %s)=w' % jm.dumps(respell(__import__("random").Random(unit["seed"]), a)))
-    o = ctx.drv.run(core.Case(sel, b"null"))
+    o = ctx.drv.run(core.Case(sel, jm.dumps({"a": a, "b": b, "c": c, "l": [c]}).encode() if unit.get("wrap") else b"null"))
     if o.result != "ok":
         st.violation("run:" + o.result, "run failed: %s %s" % (o.errtext, o.panicinfo), unit, {"expr": expr})
         return
